@@ -2155,12 +2155,28 @@ func (a *Agent) handleStreamData(peerID identity.AgentID, frame *protocol.Frame)
 		// Note: shellHandler tracks its own streams and will ignore unknown stream IDs
 	}
 
+	// Stream IDs are per connection: a stream this agent opened itself is
+	// addressed only by frames that arrive from its next hop.
+	if a.foreignToOwnStream(peerID, frame.StreamID) {
+		return
+	}
+
 	// Check if this is a shell client stream (where we initiated to a remote shell)
 	if a.handleShellClientData(frame.StreamID, frame.Payload, frame.Flags) {
 		return
 	}
 
 	a.streamMgr.HandleStreamData(frame.StreamID, frame.Flags, frame.Payload)
+}
+
+// foreignToOwnStream reports whether streamID names a stream this agent opened
+// over a different peer than the one the frame came from. Stream IDs are
+// allocated per connection, so another neighbour's frame (for example the late
+// close of a relayed stream whose entry is already gone) can carry the same
+// numeric ID.
+func (a *Agent) foreignToOwnStream(peerID identity.AgentID, streamID uint64) bool {
+	s := a.streamMgr.GetStream(streamID)
+	return s != nil && s.RemoteID != peerID
 }
 
 // handleStreamClose processes a stream close.
@@ -2204,6 +2220,10 @@ func (a *Agent) handleStreamClose(peerID identity.AgentID, frame *protocol.Frame
 	// Check if this is a shell stream (where we are the target/server)
 	if a.shellHandler != nil {
 		a.shellHandler.HandleStreamClose(frame.StreamID)
+	}
+
+	if a.foreignToOwnStream(peerID, frame.StreamID) {
+		return
 	}
 
 	// Check if this is a shell client stream (where we initiated to a remote shell)
@@ -2253,6 +2273,10 @@ func (a *Agent) handleStreamReset(peerID identity.AgentID, frame *protocol.Frame
 	// Check if this is a file transfer stream
 	if a.getFileTransferStream(frame.StreamID) != nil {
 		a.cleanupFileTransferStream(frame.StreamID)
+		return
+	}
+
+	if a.foreignToOwnStream(peerID, frame.StreamID) {
 		return
 	}
 
